@@ -351,6 +351,13 @@ class Gen:
                 e = r.choice(["True", "False"])
             else:
                 e = self.string()
+            if vt == "int" and self.coin(0.07):
+                # a float where an int is declared, in the two forms whose conversion is exact: an integral float known
+                # without rounding (literal, or a float variable holding one), and a float so large that it is integral
+                fl = [n_ for n_, t_ in self.scalars.items() if t_ == "float"]
+                e = r.choice(["3.0", "2e3", "1e2", "7E0", "0.0", "-4.0", "12.0", "1e15", "9007199254740993.0", "1e19", "-1e30", "2.5e20",
+                              "2.0**70", "-3*1e19", "1e18*4", "2.0**63", "-(2.0**63)", "1e10*1e10"] + fl)
+                self.tags.add("int-from-float")
             if vt in ("int", "float", "complex") and self.coin(0.02):
                 # the ends of the signed 64-bit range, written as signed literals
                 e = r.choice(["-9223372036854775808", "9223372036854775807", "-9223372036854775807", "-(9223372036854775808)", "- 9223372036854775808"])
@@ -390,6 +397,16 @@ class Gen:
                         saved = self.o["params"]
                         self.o["params"] = 0.0
                         els.append(self.expr(r.choice([0, 0, 0, 1, 2]), kinds) if vt != "int" else (self.int_lit() if self.coin(0.7) else self.expr(1, "i")))
+                        if vt == "int" and self.coin(0.04):
+                            # an integral float (or a float variable) among the elements of an int array, next to integers
+                            # that a detour through float64 would round
+                            fl = [n_ for n_, t_ in self.scalars.items() if t_ == "float"]
+                            els[-1] = r.choice(["3.0", "2e1", "7E0", "-4.0", "0.0", "1e3"] + fl)
+                            if j + 1 < cols or i + 1 < rows or len(els) > 1:
+                                k_ = r.randrange(len(els)) if len(els) > 1 else 0
+                                if len(els) > 1 and k_ != len(els) - 1:
+                                    els[k_] = r.choice(["9007199254740993", "4611686018427387905", "-9007199254740995", "9223372036854775807"])
+                            self.tags.add("int-array-float-element")
                         self.o["params"] = saved
                 ind = indent if indent is not None else r.choice(["    ", "    ", "\t"])
                 lines.append(ind + (", " if self.coin(0.8) else " , ").join(els))
